@@ -2,23 +2,37 @@
 // is a scheduling point followed by a sequentially consistent single step.
 package vatomic
 
-import "github.com/form3tech-oss/f1/v2/internal/verifshim/vrt"
+import (
+	"reflect"
+	"unsafe"
+
+	"github.com/form3tech-oss/f1/v2/internal/verifshim/vrt"
+)
 
 type integer interface {
 	~int32 | ~int64 | ~uint32 | ~uint64 | ~uintptr
 }
 
 type word[T integer] struct {
-	obj vrt.Obj
-	v   T
+	obj   vrt.Obj
+	v     T
+	quiet bool
 }
+
+// SetQuiet makes operations on this word happen without a scheduling point
+// (they are still single atomic steps and still folded into the state hash).
+// Harnesses use it for objects whose internal interleavings are another
+// property's business.
+func (w *word[T]) SetQuiet(q bool) { w.quiet = q }
 
 func (w *word[T]) Load() T {
 	s := vrt.Cur()
 	if s.IsAborting() {
 		return w.v
 	}
-	s.Point(vrt.KAtomicLoad, &w.obj, nil)
+	if !w.quiet {
+		s.Point(vrt.KAtomicLoad, &w.obj, nil)
+	}
 	v := w.v
 	s.Commit(vrt.KAtomicLoad, &w.obj, false, uint64(v))
 	return v
@@ -30,7 +44,9 @@ func (w *word[T]) Store(v T) {
 		w.v = v
 		return
 	}
-	s.Point(vrt.KAtomicStore, &w.obj, nil)
+	if !w.quiet {
+		s.Point(vrt.KAtomicStore, &w.obj, nil)
+	}
 	w.v = v
 	s.Commit(vrt.KAtomicStore, &w.obj, true, uint64(v))
 }
@@ -41,7 +57,9 @@ func (w *word[T]) Add(d T) T {
 		w.v += d
 		return w.v
 	}
-	s.Point(vrt.KAtomicRMW, &w.obj, nil)
+	if !w.quiet {
+		s.Point(vrt.KAtomicRMW, &w.obj, nil)
+	}
 	w.v += d
 	s.Commit(vrt.KAtomicRMW, &w.obj, true, uint64(w.v))
 	return w.v
@@ -54,7 +72,9 @@ func (w *word[T]) Swap(v T) T {
 		w.v = v
 		return old
 	}
-	s.Point(vrt.KAtomicRMW, &w.obj, nil)
+	if !w.quiet {
+		s.Point(vrt.KAtomicRMW, &w.obj, nil)
+	}
 	old := w.v
 	w.v = v
 	s.Commit(vrt.KAtomicRMW, &w.obj, true, uint64(old)^(uint64(v)<<1))
@@ -70,7 +90,9 @@ func (w *word[T]) CompareAndSwap(old, new T) bool {
 		}
 		return false
 	}
-	s.Point(vrt.KAtomicRMW, &w.obj, nil)
+	if !w.quiet {
+		s.Point(vrt.KAtomicRMW, &w.obj, nil)
+	}
 	ok := w.v == old
 	if ok {
 		w.v = new
@@ -90,7 +112,9 @@ func (w *word[T]) SetName(n string) { w.obj.Name = n }
 func (w *word[T]) And(mask T) T { // Go 1.23 API
 	s := vrt.Cur()
 	if !s.IsAborting() {
-		s.Point(vrt.KAtomicRMW, &w.obj, nil)
+		if !w.quiet {
+			s.Point(vrt.KAtomicRMW, &w.obj, nil)
+		}
 	}
 	old := w.v
 	w.v &= mask
@@ -101,7 +125,9 @@ func (w *word[T]) And(mask T) T { // Go 1.23 API
 func (w *word[T]) Or(mask T) T {
 	s := vrt.Cur()
 	if !s.IsAborting() {
-		s.Point(vrt.KAtomicRMW, &w.obj, nil)
+		if !w.quiet {
+			s.Point(vrt.KAtomicRMW, &w.obj, nil)
+		}
 	}
 	old := w.v
 	w.v |= mask
@@ -118,9 +144,12 @@ type (
 )
 
 type Bool struct {
-	obj vrt.Obj
-	v   bool
+	obj   vrt.Obj
+	v     bool
+	quiet bool
 }
+
+func (b *Bool) SetQuiet(q bool) { b.quiet = q }
 
 func b2u(b bool) uint64 {
 	if b {
@@ -134,7 +163,9 @@ func (b *Bool) Load() bool {
 	if s.IsAborting() {
 		return b.v
 	}
-	s.Point(vrt.KAtomicLoad, &b.obj, nil)
+	if !b.quiet {
+		s.Point(vrt.KAtomicLoad, &b.obj, nil)
+	}
 	v := b.v
 	s.Commit(vrt.KAtomicLoad, &b.obj, false, b2u(v))
 	return v
@@ -146,7 +177,9 @@ func (b *Bool) Store(v bool) {
 		b.v = v
 		return
 	}
-	s.Point(vrt.KAtomicStore, &b.obj, nil)
+	if !b.quiet {
+		s.Point(vrt.KAtomicStore, &b.obj, nil)
+	}
 	b.v = v
 	s.Commit(vrt.KAtomicStore, &b.obj, true, b2u(v))
 }
@@ -158,7 +191,9 @@ func (b *Bool) Swap(v bool) bool {
 		b.v = v
 		return old
 	}
-	s.Point(vrt.KAtomicRMW, &b.obj, nil)
+	if !b.quiet {
+		s.Point(vrt.KAtomicRMW, &b.obj, nil)
+	}
 	old := b.v
 	b.v = v
 	s.Commit(vrt.KAtomicRMW, &b.obj, true, b2u(old)|b2u(v)<<1)
@@ -174,7 +209,9 @@ func (b *Bool) CompareAndSwap(old, new bool) bool {
 		}
 		return false
 	}
-	s.Point(vrt.KAtomicRMW, &b.obj, nil)
+	if !b.quiet {
+		s.Point(vrt.KAtomicRMW, &b.obj, nil)
+	}
 	ok := b.v == old
 	if ok {
 		b.v = new
@@ -378,3 +415,25 @@ func CompareAndSwapInt32(a *int32, o, n int32) bool    { return cas(a, o, n) }
 func CompareAndSwapInt64(a *int64, o, n int64) bool    { return cas(a, o, n) }
 func CompareAndSwapUint32(a *uint32, o, n uint32) bool { return cas(a, o, n) }
 func CompareAndSwapUint64(a *uint64, o, n uint64) bool { return cas(a, o, n) }
+
+// QuietAll sets quiet on every shim atomic reachable through the struct
+// fields of *ptr (unexported ones included).
+func QuietAll(ptr any) {
+	quietWalk(reflect.ValueOf(ptr).Elem())
+}
+
+type quieter interface{ SetQuiet(bool) }
+
+func quietWalk(v reflect.Value) {
+	if v.Kind() != reflect.Struct || !v.CanAddr() {
+		return
+	}
+	p := reflect.NewAt(v.Type(), unsafe.Pointer(v.UnsafeAddr()))
+	if q, ok := p.Interface().(quieter); ok {
+		q.SetQuiet(true)
+		return
+	}
+	for i := 0; i < v.NumField(); i++ {
+		quietWalk(v.Field(i))
+	}
+}
